@@ -87,9 +87,23 @@ Claims(c, a) == UNION {{<<k, i>> : i \in {j \in 1..Len(EffIn(c, k)) : EffIn(c, k
 Aliases(c) == UNION {{EffIn(c, k)[i].alias : i \in 1..Len(EffIn(c, k))} : k \in TaskIds(c)} \ {""}
 ConflictStrict(c, a) == Cardinality(Claims(c, a)) > 1
 ConflictCrossTask(c, a) == \E x, y \in Claims(c, a) : x[1] # y[1]
-Conflict(c, a) == IF Code_SameTaskAliasLastWins THEN ConflictCrossTask(c, a) ELSE ConflictStrict(c, a)
-\* the claim that holds the alias when there is no conflict (code: the last channel of the task in list order)
-Holder(c, a) == CHOOSE x \in Claims(c, a) : \A y \in Claims(c, a) : y[2] <= x[2]
+\* two claims that name the very same explicit address with the same transport
+SameExplicit(c, x, y) == LET dx == EffIn(c, x[1])[x[2]]
+                             dy == EffIn(c, y[1])[y[2]]
+                         IN dx.xt # "" /\ dx.xt = dy.xt /\ dx.tr = dy.tr
+Claimers(c, a) == {x[1] : x \in Claims(c, a)}
+\* the claim of task k that reaches the environment's bind map (scheduler.go: the task's local map has
+\* ONE "::alias" entry, written once per channel in list order - the last one stays)
+TaskClaim(c, a, k) == CHOOSE x \in Claims(c, a) : x[1] = k /\ \A y \in Claims(c, a) : y[1] = k => y[2] <= x[2]
+\* configureTasks: an alias met again is accepted only if channel.EndpointEquals(existing, new); the
+\* existing one is in target form (host filled in), the new one in bound form: equal only for the same
+\* IPC path and transport - which can only happen for explicit targets once they are advertised
+CrossConflict(c, x, y) == Code_ExplicitInboundAdvertisesDynamic \/ ~(SameExplicit(c, x, y) /\ EffIn(c, x[1])[x[2]].xt = "ipc")
+Conflict(c, a) ==
+  \/ ~Code_SameTaskAliasLastWins /\ \E x, y \in Claims(c, a) : x # y /\ x[1] = y[1]
+  \/ \E k, j \in Claimers(c, a) : k # j /\ CrossConflict(c, TaskClaim(c, a, k), TaskClaim(c, a, j))
+\* the claim that holds the alias when there is no conflict (all remaining claims are the same endpoint)
+Holder(c, a) == TaskClaim(c, a, CHOOSE k \in Claimers(c, a) : TRUE)
 
 \* <<task, index in EffIn>> an outbound declaration resolves to, <<>> if nothing matches
 Resolve(c, o) ==
@@ -144,16 +158,21 @@ GrantSet(g, k) == SeqSet(g[k])
 ConnectableOf(c, g, j, addr) ==
   LET ps == {p \in GrantSet(g, j) \cup {XTcpPort} : addr = BoundTcp(p)}
   IN IF ps # {} THEN TargetTcp(HostOf(c, j), CHOOSE p \in ps : TRUE) ELSE addr
+\* "two different endpoints claiming the same global alias": two claims unless they name the very same
+\* explicit address (then the statement does not say whether the redefinition is an error: PAmbiguous)
+PConflicts(c) == {a \in Aliases(c) : \E x, y \in Claims(c, a) : x # y /\ ~SameExplicit(c, x, y)}
+PAmbiguous(c) == {a \in Aliases(c) : ConflictStrict(c, a)} \ PConflicts(c)
 \* resolution as the STATEMENT has it: an alias names its unique claimant
 PResolve(c, o) ==
   CASE o.tk = "path" -> Resolve(c, o)
-    [] o.tk = "alias" -> IF Cardinality(Claims(c, o.ta)) = 1 THEN CHOOSE x \in Claims(c, o.ta) : TRUE ELSE <<>>
+    [] o.tk = "alias" -> IF Cardinality(Claims(c, o.ta)) = 1 \/
+                            (o.ta \in PAmbiguous(c) /\ \A x \in Claims(c, o.ta) : EffIn(c, x[1])[x[2]].xt = "ipc")
+                           THEN CHOOSE x \in Claims(c, o.ta) : TRUE ELSE <<>>
     [] OTHER -> <<>>
 PDangling(c) == UNION {{<<k, EffOut(c, k)[i].name>> : i \in {j \in 1..Len(EffOut(c, k)) :
                   LET o == EffOut(c, k)[j]
                   IN ~IsExplicitOut(o) /\ (IF o.tk = "alias" THEN Claims(c, o.ta) = {} ELSE Resolve(c, o) = <<>>)}}
                   : k \in TaskIds(c)}
-PConflicts(c) == {a \in Aliases(c) : ConflictStrict(c, a)}
 
 V_ConnectMatchesBind(c, g, obs, out) ==
   IF out # "configured" THEN {} ELSE
@@ -197,11 +216,15 @@ V_Passthrough(c, g, obs, out) ==
          : k \in TaskIds(c)}
 
 V_DanglingRejected(c, g, obs, out) == IF PDangling(c) # {} /\ out = "configured" THEN PDangling(c) ELSE {}
-AliasPattern(c, a) == IF ConflictCrossTask(c, a) THEN "cross-task" ELSE "same-task"
+\* "cross-task": the claims that different tasks bring to the environment differ; "same-task": only
+\* claims of one task differ from each other
+AliasPattern(c, a) == IF \E k, j \in Claimers(c, a) : k # j /\ ~SameExplicit(c, TaskClaim(c, a, k), TaskClaim(c, a, j))
+                        THEN "cross-task" ELSE "same-task"
 V_AliasConflictRejected(c, g, obs, out) ==
   IF out = "configured" THEN {[alias |-> a, claimants |-> AliasPattern(c, a)] : a \in PConflicts(c)} ELSE {}
 \* a configuration with neither a dangling target nor an alias conflict is accepted
-V_ValidAccepted(c, g, obs, out) == IF PDangling(c) = {} /\ PConflicts(c) = {} /\ out # "configured" THEN {out} ELSE {}
+V_ValidAccepted(c, g, obs, out) ==
+  IF PDangling(c) = {} /\ PConflicts(c) = {} /\ PAmbiguous(c) = {} /\ out # "configured" THEN {out} ELSE {}
 
 \* a name declared at several levels of a task's chain: what the task is told follows the nearest level
 \* and (where they differ) not the overridden one
@@ -251,7 +274,7 @@ ModelViol(c) == {PropNames[i] : i \in {j \in 1..Len(PropNames) :
 HasExplicitReferenced(c) ==
   \E k \in TaskIds(c) : \E i \in 1..Len(EffOut(c, k)) :
      LET r == PResolve(c, EffOut(c, k)[i]) IN r # <<>> /\ EffIn(c, r[1])[r[2]].xt # ""
-HasSameTaskAlias(c) == \E a \in Aliases(c) : ConflictStrict(c, a) /\ ~ConflictCrossTask(c, a)
+HasSameTaskAlias(c) == PConflicts(c) # {}
 AllowedViol(c) ==
   IF Outcome(c) # "configured" THEN {} ELSE
   (IF Code_ExplicitInboundAdvertisesDynamic /\ HasExplicitReferenced(c) THEN {"ConnectMatchesBind"} ELSE {})
